@@ -18,7 +18,9 @@ import (
 const e18u = uint64(1_000_000_000_000_000_000)
 
 func c05LedgerCfg() ledger.Cfg {
-	tx := func(l, f, t string, c, s uint64) ledger.TxSpec { return ledger.TxSpec{Label: l, From: f, To: t, Cur: c, Supp: s} }
+	tx := func(l, f, t string, c, s uint64) ledger.TxSpec {
+		return ledger.TxSpec{Label: l, From: f, To: t, Cur: c, Supp: s}
+	}
 	return ledger.Cfg{
 		Nodes:       []string{"G", "N1"},
 		Supply:      spice.Melange{Currency: 10},
@@ -30,9 +32,34 @@ func c05LedgerCfg() ledger.Cfg {
 	}
 }
 
+// c05WrapCfg: amounts at the 2^64 edge in a ledger that gets truncated. Every single transfer and balance is
+// representable (supply 2^64-1: R pays A 2^63, A pays B 2^63 - the same coins move twice, so the SUM of what the
+// wallets spent inside the truncated region is 2^64), then fillers and truncations. No history may create or destroy
+// value: the conservation and checkpoint oracles of the ledger model judge every state.
+func c05WrapCfg() ledger.Cfg {
+	tx := func(l, f, t string, c, s uint64) ledger.TxSpec {
+		return ledger.TxSpec{Label: l, From: f, To: t, Cur: c, Supp: s}
+	}
+	fill := func(l string) ledger.TxSpec { return ledger.TxSpec{Label: l, From: "R", To: "B", Data: "filler"} }
+	return ledger.Cfg{
+		Nodes:    []string{"G"},
+		Supply:   spice.Melange{Currency: 1<<64 - 1},
+		Menu:     []ledger.TxSpec{fill("c4"), fill("c5"), tx("w3", "B", "A", 1<<62, 999_999_999_999_999_999)},
+		Hidden:   []ledger.TxSpec{tx("w1", "R", "A", 1<<63, 0), tx("w2", "A", "B", 1<<63, 0), fill("c1"), fill("c2"), fill("c3")},
+		Prefix:   []string{"P:0:w1", "P:0:w2", "P:0:c1", "P:0:c2", "P:0:c3"},
+		Truncate: true,
+		Props:    map[string]bool{"C02": true, "C07": true},
+	}
+}
+
 func c05LedgerWorker() {
 	space.Opt.KeyFunc = world.KeyFunc
-	space.WorkerMain(ledger.New(c05LedgerCfg()))
+	space.WorkerMainMulti(func(tag string) space.Model {
+		if tag == "wrap" {
+			return ledger.New(c05WrapCfg())
+		}
+		return ledger.New(c05LedgerCfg())
+	})
 }
 
 func c05LedgerPart(rep *common.Report) {
@@ -50,5 +77,25 @@ func c05LedgerPart(rep *common.Report) {
 	}, rep.Sample, []string{"C05", "lworker"}, depth, runtime.NumCPU(), common.Deadline(120*time.Second, 20*time.Minute), 500)
 	rep.Set("ledger_part", map[string]any{"states": st.States, "transitions": st.Transitions, "depth_completed": st.DepthDone, "depth_bound": depth,
 		"exhaustive_within_bound": st.Exhaustive, "cap_hit": st.CapHit, "results": st.Results, "counters": st.Counters})
+	// second run: conservation across truncation at the 2^64 edge (oracles of C02 / C07, reported under C05)
+	pool := space.NewPool([]string{"C05", "lworker"}, runtime.NumCPU())
+	defer pool.Close()
+	st2 := space.SearchP(pool, "wrap", func(v common.Violation) {
+		if v.Property != "C02" && v.Property != "C07" {
+			return
+		}
+		if known := map[string]bool{"C07.balance-changed/tip-does-not-descend-from-cut": true}; known[v.Key] {
+			return
+		}
+		v.Property = "C05"
+		v.Predicate = "C05.ledger-conservation"
+		v.Key = "C05.value-not-conserved-in-ledger/" + v.Key
+		if w, ok := v.Witness.(map[string]any); ok {
+			w["run"] = "ledger-part/wrap"
+		}
+		rep.Add(v)
+	}, rep.Sample, depth, common.Deadline(60*time.Second, 10*time.Minute), 500)
+	rep.Set("ledger_part_wrap", map[string]any{"states": st2.States, "transitions": st2.Transitions, "depth_completed": st2.DepthDone,
+		"exhaustive_within_bound": st2.Exhaustive, "cap_hit": st2.CapHit, "results": st2.Results, "counters": st2.Counters})
 	rep.Assume("ledger part: explicit-state search over propose / deliver / crafted (untrusted and trusted sealer) / tick events with non-canonical amounts on two real nodes, depth as stated; events atomic")
 }
